@@ -17,8 +17,24 @@ var (
 	c03Mu      sync.Mutex
 	c03Started time.Time
 	c03Current []byte
+	c03Prop    string
 	c03Once    sync.Once
 )
+
+// watchdogArm / watchdogDisarm bracket a library call that must return (also used by C13).
+func watchdogArm(prop string, c any) {
+	c03Once.Do(c03Watchdog)
+	raw, _ := json.Marshal(c)
+	c03Mu.Lock()
+	c03Current, c03Started, c03Prop = raw, time.Now(), prop
+	c03Mu.Unlock()
+}
+
+func watchdogDisarm() {
+	c03Mu.Lock()
+	c03Current = nil
+	c03Mu.Unlock()
+}
 
 // c03Watchdog turns a call that does not return into a saved counter-example: it writes
 // the journalled case as the shard's failure file and ends the process (a hung goroutine
@@ -28,11 +44,11 @@ func c03Watchdog() {
 		for {
 			time.Sleep(500 * time.Millisecond)
 			c03Mu.Lock()
-			cur, since := c03Current, time.Since(c03Started)
+			cur, since, prop := c03Current, time.Since(c03Started), c03Prop
 			c03Mu.Unlock()
 			if cur != nil && since > c03Deadline {
 				if outDir != "" {
-					b, _ := json.MarshalIndent(failureFile{Property: "C03", Msg: "the call did not return within " + c03Deadline.String() + " (hang)", Case: cur}, "", " ")
+					b, _ := json.MarshalIndent(failureFile{Property: prop, Msg: "the call did not return within " + c03Deadline.String() + " (hang)", Case: cur}, "", " ")
 					_ = os.WriteFile(filepath.Join(outDir, "failure."+shardTag+".json"), b, 0o644)
 				}
 				os.Exit(3)
@@ -42,15 +58,9 @@ func c03Watchdog() {
 }
 
 func judgeC03(c *APICall, cx *Ctx) *Violation {
-	c03Once.Do(c03Watchdog)
-	raw, _ := json.Marshal(c)
-	c03Mu.Lock()
-	c03Current, c03Started = raw, time.Now()
-	c03Mu.Unlock()
+	watchdogArm("C03", c)
 	res := c.Run()
-	c03Mu.Lock()
-	c03Current = nil
-	c03Mu.Unlock()
+	watchdogDisarm()
 
 	if res.Panic != nil {
 		badPrec := c.takesPrecision() && (c.Prec < -8 || c.Prec > 8)
